@@ -2,15 +2,6 @@
 From PM Require Export Base.PyVal Base.Regex.
 From PM Require Import Model.Nvra Gen.Regexes Gen.Tables.
 
-(* dict.setdefault(k, default) followed by an in-place update *)
-Fixpoint upd {A} (k : str) (f : option A -> A) (l : list (str * A)) : list (str * A) :=
-  match l with
-  | [] => [(k, f None)]
-  | (k', v) :: l' => if str_eqb k k' then (k', f (Some v)) :: l' else (k', v) :: upd k f l'
-  end.
-
-Definition dflt {A} (d : A) (o : option A) : A := match o with Some a => a | None => d end.
-
 Definition s_src : str := Eval cbv in lit "src".
 Definition s_nosrc : str := Eval cbv in lit "nosrc".
 Definition s_source : str := Eval cbv in lit "source".
